@@ -86,6 +86,8 @@ def random_case(rng, tier):
         opts['oneshot'] = True
     if rng.random() < 0.3:
         opts['register_twice'] = True
+    if rng.random() < 0.25:
+        opts['cleanup_raises'] = True
     return {'program': program, 'schedule': schedule, 'opts': opts}
 
 
